@@ -41,7 +41,7 @@ ASSUMPTIONS = ['wavelengths > 0 and strictly increasing, values >= 0, temperatur
                'comparison tolerance 1e-12 relative; Planck arguments hc/(lambda k T) in [0.05, 50]']
 RULE = ('all 49+ name pairs and all 64 triples of wavelength units; all 27 flux triples at random (flux, wave); Spectrum.to '
         'chains of length <= 6 over random unit sequences (density and unitless, random upper/lower case, closed chains '
-        'favoured) observed after every step; Spectrum.sample(points, waveunit) for all 16 wave-unit pairs x {None, photlam, flam, wlam} (own grid and interior/outside points; spectrum untouched); TEST cases Wien peak (cubic fit of log radiance around the maximum) and Stefan-Boltzmann total (40001-point log grid) in every wave unit against CODATA 2018 references to 1e-5; planck_radiance/exitance, Blackbody (+ to-chain, + sample in its own and in other wave units), Blackbody.vegamag stars in every (wave, value) unit pair, converted with to-chains and sampled in every wave unit (compared with the SI reference vegaflux*planck_exitance ratio, a star built directly in the target units and a fresh star), integer/list/tuple inputs and scalar/list sample points, vegaflux in '
+        'favoured) observed after every step; Spectrum.sample(points, waveunit) for all 16 wave-unit pairs x {None, photlam, flam, wlam} (own grid and interior/outside points; spectrum untouched); band integrals integrate(start, end) on dense grids (0.05-20 nm spacing) in every wave unit before/after to() (fresh and chained objects, trapz and simps); arrays of 2**20+3 .. 3*2**20+7 samples judged at sampled indices; numpy array subclasses (MaskedArray, metadata subclass), strided views, 0-d / one-element / numpy-scalar wavelengths; Planck arguments hc/(lambda k T) from 1e-6 (Rayleigh-Jeans) to 100 (Wien tail); values scaled over 1e-30..1e30; TEST cases Wien peak (cubic fit of log radiance around the maximum) and Stefan-Boltzmann total (40001-point log grid) in every wave unit against CODATA 2018 references to 1e-5; planck_radiance/exitance, Blackbody (+ to-chain, + sample in its own and in other wave units), Blackbody.vegamag stars in every (wave, value) unit pair, converted with to-chains and sampled in every wave unit (compared with the SI reference vegaflux*planck_exitance ratio, a star built directly in the target units and a fresh star), integer/list/tuple inputs and scalar/list sample points, vegaflux in '
         'all unit pairs; refused operations (unknown unit, None value unit -> flux); '
         'histories of 2-4 planck_*/Unit.to/flux/vegaflux calls in one process with one argument varied at a time; non-trivial = at least one conversion between two different units')
 
@@ -98,6 +98,13 @@ def close(a, b, tol=TOL):
     return abs(a - b) <= tol * max(abs(a), abs(b))
 
 
+def cancel_tol(x, base):
+    """tolerance for a quantity that contains exp(x) - 1 evaluated in floating point: the subtraction loses
+    about eps/x relative for small x, on either side of a comparison; never below the base tolerance
+    (x >= 0.05 leaves every earlier comparison exactly as it was)"""
+    return max(base, 2e-15 / x) if x > 0 else base
+
+
 def lclose(xs, ys, tol=TOL):
     return len(xs) == len(ys) and all(close(x, y, tol) for x, y in zip(xs, ys))
 
@@ -150,6 +157,9 @@ def rnd_values(rng, n):
     for _ in range(n):
         t = rng.random()
         out.append(0.0 if t < 0.12 else round(rng.uniform(0, 10), 3) * 10.0 ** rng.randint(-3, 6))
+    if rng.random() < 0.25:          # faint / bright sources: every conversion is linear, so the scale must not matter
+        k = 10.0 ** rng.choice([-30, -20, -13, -9, 9, 20, 30])
+        out = [v * k for v in out]
     return out
 
 
@@ -169,10 +179,13 @@ def rnd_chain(rng, start_wu, start_vu, maxlen, close_p=0.5):
 
 
 def planck_point(rng, consts, temp=None):
-    """(wave in metres, temp) with x = hc/(lambda k T) in [0.05, 50]"""
+    """(wave in metres, temp) with x = hc/(lambda k T) mostly in [0.05, 50], sometimes in the Rayleigh-Jeans
+    regime [1e-6, 0.05] (long wavelengths / hot sources) or in the Wien tail [50, 100]"""
     temp = temp if temp is not None else float(rng.choice([300, 1000, 2500, 4000, 5772, 9602, 25000]) if rng.random() < 0.6
                  else round(rng.uniform(150, 30000), 1))
-    x = math.exp(rng.uniform(math.log(0.05), math.log(50)))
+    t = rng.random()
+    lo, hi = (0.05, 50.0) if t < 0.7 else (1e-6, 0.05) if t < 0.92 else (50.0, 100.0)
+    x = math.exp(rng.uniform(math.log(lo), math.log(hi)))
     hc_k = float(consts['H'] * consts['C'] / consts['K'])
     return hc_k / (x * temp), temp
 
@@ -211,7 +224,9 @@ def generate(rng, tier):
         c = {'op': 'chain', 'wu': rcase(rng, rng.choice([w for w in WNAMES if CANON[w] == wu])),
              'vu': rcase(rng, vu) if vu else None, 'wave': rnd_waves(rng, n, wu), 'value': rnd_values(rng, n),
              'args': [rcase(rng, a) for a in rnd_chain(rng, wu, vu, 6)]}
-        if rng.random() < 0.3:        # integer arrays / lists / tuples as input (integral data, nm or angstrom)
+        if rng.random() < 0.2:        # array subclasses and non-contiguous views
+            c['form'] = rng.choice(['masked', 'masked1', 'subclass', 'strided'])
+        elif rng.random() < 0.3:      # integer arrays / lists / tuples as input (integral data, nm or angstrom)
             c['form'] = rng.choice(['int', 'list', 'tuple'])
             if wu in ('nm', 'angstrom'):
                 base = sorted(rng.sample(range(300, 30000), n))
@@ -235,7 +250,9 @@ def generate(rng, tier):
                         wave = rnd_waves(rng, n, wu)
                         c = {'op': 'sample', 'wu': wu, 'vu': vu, 'wave': wave, 'value': rnd_values(rng, n),
                              'wb': rcase(rng, wb) if rep else wb, 'mode': mode, 'points': []}
-                        if wu in ('nm', 'angstrom') and rng.random() < 0.3:
+                        if rng.random() < 0.15:
+                            c['form'] = rng.choice(['masked', 'masked1', 'subclass', 'strided'])
+                        elif wu in ('nm', 'angstrom') and rng.random() < 0.3:
                             c['form'] = rng.choice(['int', 'list', 'tuple'])
                             c['wave'] = [float(b) for b in sorted(rng.sample(range(300, 30000), n))]
                             c['value'] = [float(rng.randint(0, 5000)) for _ in range(n)]
@@ -255,7 +272,10 @@ def generate(rng, tier):
                 for kind in ('radiance', 'exitance'):
                     wm, temp = planck_point(rng, consts)
                     w = float(Fraction(wm) / METRES[CANON[wn]])
-                    yield {'op': 'planck', 'kind': kind, 'wave': w, 'temp': temp, 'wn': rcase(rng, wn), 'vn': rcase(rng, vn)}
+                    c = {'op': 'planck', 'kind': kind, 'wave': w, 'temp': temp, 'wn': rcase(rng, wn), 'vn': rcase(rng, vn)}
+                    if rng.random() < 0.4:
+                        c['form'] = rng.choice(['np', '0d', '1elem', '1elem_masked'])
+                    yield c
     for wn, vn in [('furlong', 'wlam'), ('nm', 'jansky'), ('photlam', 'wlam'), ('um', 'nm')]:
         yield {'op': 'planck', 'kind': 'radiance', 'wave': 500.0, 'temp': 5000.0, 'wn': wn, 'vn': vn}
     # -- Blackbody objects, converted with Spectrum.to
@@ -269,7 +289,34 @@ def generate(rng, tier):
         waves = [float(Fraction(hc_k / (x * temp)) / METRES[CANON[wn]]) for x in xs]
         yield {'op': 'blackbody', 'waves': waves, 'temp': temp, 'wn': rcase(rng, wn), 'vn': rcase(rng, vn),
                'args': [rcase(rng, a) for a in rnd_chain(rng, CANON[wn], vn, 4, close_p=0.3)],
-               'samples': [rcase(rng, rng.choice(WNAMES)) for _ in range(rng.randint(1, 3))]}
+               'samples': [rcase(rng, rng.choice(WNAMES)) for _ in range(rng.randint(1, 3))],
+               'form': rng.choice([None, None, 'masked', 'masked1', 'subclass', 'strided', 'list'])}
+    # -- band integrals integrate(start, end) of a spectrum on a dense grid, before and after to(<wave unit>):
+    #    bounds half-way between samples, grids from 0.05 nm to 20 nm spacing (in metres that is 5e-11 .. 2e-8)
+    for k in range(24 if quick else 300):
+        wu = WSHORT[k % 4]
+        vu = [None, 'photlam', 'flam', 'wlam'][(k // 4) % 4]
+        n = rng.randint(9, 24)
+        step = rng.choice([0.05, 0.5, 2.0, 5.0, 20.0])
+        start = round(rng.uniform(300, 2000), 1)
+        base, x = [], start
+        for _ in range(n):
+            base.append(x)
+            x = round(x + step * rng.choice([1, 1, 1, 2, 3]), 3)
+        kk = float(Fraction(1, 10 ** 9) / METRES[wu])
+        wave = [b * kk for b in base]
+        i0 = rng.randint(1, n - 5)
+        i1 = rng.randint(i0 + 3, n - 1)
+        yield {'op': 'band', 'wu': wu, 'vu': vu, 'wave': wave, 'value': rnd_values(rng, n),
+               'lo': 0.5 * (wave[i0 - 1] + wave[i0]), 'hi': 0.5 * (wave[i1 - 1] + wave[i1]),
+               'form': rng.choice([None, None, None, 'masked', 'masked1', 'subclass', 'list'])}
+    # -- large arrays (sizes beyond 2**20, not multiples of a block size): described by parameters, judged at sampled indices
+    for n in ([2 ** 20 + 3] if quick else [2 ** 20 + 3, 3 * 2 ** 20 + 7, 2 ** 21]):
+        wu, vu = rng.choice(WSHORT), rng.choice(FNAMES)
+        yield {'op': 'big', 'kind': 'chain', 'n': n, 'wu': wu, 'vu': vu, 'lo_nm': 300.0, 'hi_nm': 2500.0,
+               'args': rnd_chain(rng, wu, vu, 4, close_p=0.0)}
+        yield {'op': 'big', 'kind': 'planck', 'n': n, 'wu': rng.choice(WNAMES), 'vu': rng.choice(FNAMES), 'lo_nm': 300.0, 'hi_nm': 2500.0,
+               'temp': 5772.0, 'args': []}
     # -- the two physical laws the property names, against independent references (numeric TESTS, not proofs)
     for temp in ([300.0, 5772.0] if quick else [77.0, 300.0, 1000.0, 2856.0, 5772.0, 12000.0, 40000.0]):
         for wn in WSHORT:
@@ -385,7 +432,7 @@ def classify(c):
         return (f'chain/{"unitless" if c["vu"] is None else "density"}/len{len(c["args"])}{"/refused" if bad else ""}'
                 + (f'/{c["form"]}' if c.get('form') else ''))
     if op == 'planck':
-        return f'planck/{c["kind"]}'
+        return f'planck/{c["kind"]}' + (f'/{c["form"]}' if c.get('form') else '')
     if op == 'sample':
         return f'sample/{"unitless" if c["vu"] is None else "density"}/{c["mode"]}' + (f'/{c["form"]}' if c.get('form') else '')
     if op == 'vegastar':
@@ -394,6 +441,10 @@ def classify(c):
         return f'history/{c["kind"]}/{len(c["calls"])}'
     if op in ('wien', 'stefan_boltzmann'):
         return 'TEST/' + op
+    if op == 'band':
+        return f'band/{"unitless" if c["vu"] is None else "density"}' + (f'/{c["form"]}' if c.get('form') else '')
+    if op == 'big':
+        return f'big/{c["kind"]}'
     return op
 
 
@@ -510,7 +561,52 @@ def arr(xs, form):
         return [float(x) for x in xs]
     if form == 'tuple':
         return tuple(float(x) for x in xs)
+    if form == 'masked':            # numpy array subclasses are legal array_like inputs
+        return np.ma.MaskedArray(np.array(xs, dtype=float))
+    if form == 'masked1':           # with one masked entry: np.asarray gives the data, the mask is not part of a Spectrum
+        m = np.zeros(len(xs), dtype=bool)
+        m[len(xs) // 2] = True
+        return np.ma.MaskedArray(np.array(xs, dtype=float), mask=m)
+    if form == 'subclass':
+        return np.array(xs, dtype=float).view(TaggedArray)
+    if form == 'strided':           # a non-contiguous view
+        big = np.zeros(2 * len(xs))
+        big[::2] = xs
+        return big[::2]
     return np.array(xs, dtype=float)
+
+
+class TaggedArray(np.ndarray):
+    """an ndarray subclass carrying metadata"""
+    tag = 'metadata'
+
+    def __array_finalize__(self, obj):
+        self.tag = getattr(obj, 'tag', 'metadata')
+
+
+def scalar(x, form):
+    """one wavelength in the documented forms: float, numpy float, 0-d array, one-element array, int"""
+    if form == 'np':
+        return np.float64(x)
+    if form == '0d':
+        return np.array(float(x))
+    if form == '1elem':
+        return np.array([float(x)])
+    if form == '1elem_masked':
+        return np.ma.MaskedArray(np.array([float(x)]))
+    if form == 'int':
+        return int(x)
+    return float(x)
+
+
+def big_indices(n):
+    """first, last, a stride through the array and the neighbours of every power of two"""
+    idx = {0, 1, n - 2, n - 1} | set(range(0, n, max(1, n // 997)))
+    p = 2
+    while p < n:
+        idx |= {i for i in (p - 1, p, p + 1) if 0 <= i < n}
+        p *= 2
+    return sorted(idx)
 
 
 def snap(s):
@@ -579,15 +675,16 @@ def run_impl(c):
             return {'values': got, 'points': fl(pts), 'before': before, 'after': after, 'converted': cs,
                     'ref': fl(conv.sample(pts, waveunit=cs['wu']))}
         if op == 'planck':
-            w, t, wn, vn = c['wave'], c['temp'], c['wn'], c['vn']
-            out = {'rad': float(R.planck_radiance(w, t, wn, vn)), 'exi': float(R.planck_exitance(w, t, wn, vn))}
+            w, t, wn, vn = scalar(c['wave'], c.get('form')), c['temp'], c['wn'], c['vn']
+            out = {'rad': fl(R.planck_radiance(w, t, wn, vn))[0], 'exi': fl(R.planck_exitance(w, t, wn, vn))[0]}
+            w = c['wave']
             wm = float(Fraction(w) * METRES[wcanon(wn)])
             out['si_rad'] = float(R.planck_radiance(wm, t, 'm', 'wlam'))
             out['wm'] = wm
             out['v'] = out['rad'] if c['kind'] == 'radiance' else out['exi']
             return out
         if op == 'blackbody':
-            bb = R.Blackbody(np.array(c['waves'], dtype=float), c['temp'], c['wn'], c['vn'])
+            bb = R.Blackbody(arr(c['waves'], c.get('form')), c['temp'], c['wn'], c['vn'])
             first = snap(bb)
             bb.to(*c['args'])
             fin = snap(bb)
@@ -609,6 +706,44 @@ def run_impl(c):
             f, w = R.vegaflux(c['band'], c['wn'], c['vn'])
             f0, w0 = R.vegaflux(c['band'], 'm', 'photlam')
             return {'flux': float(f), 'wave': float(w), 'si_flux': float(f0), 'si_wave': float(w0)}
+        if op == 'band':
+            mk = lambda: R.Spectrum(arr(c['wave'], c.get('form')), arr(c['value'], c.get('form')), c['wu'], c['vu'])
+
+            def integ(sp, lo, hi):
+                out = {}
+                for meth in ('trapz', 'simps'):
+                    out[meth] = float(sp.integrate(lo, hi, method=meth))
+                out['all_trapz'] = float(sp.integrate(method='trapz'))
+                return out
+            s0 = mk()
+            out = {'own': integ(s0, c['lo'], c['hi']), 'to': {}}
+            chain = mk()
+            out['chained'] = {}
+            for b in WSHORT:
+                k = truth_factor(wcanon(c['wu']), b)
+                sp = mk()
+                sp.to(b)
+                out['to'][b] = integ(sp, c['lo'] * k, c['hi'] * k)
+                chain.to(b)                                   # one object carried through every unit in turn
+                out['chained'][b] = integ(chain, c['lo'] * k, c['hi'] * k)
+            return out
+        if op == 'big':
+            n = c['n']
+            k = float(Fraction(1, 10 ** 9) / METRES[wcanon(c['wu'])])
+            wave = np.linspace(c['lo_nm'] * k, c['hi_nm'] * k, n)
+            idx = big_indices(n)
+            if c['kind'] == 'planck':
+                full = np.asarray(R.planck_radiance(wave, c['temp'], c['wu'], c['vu']), dtype=float)
+                one = [float(R.planck_radiance(float(wave[i]), c['temp'], c['wu'], c['vu'])) for i in idx[:60]]
+                return {'n': int(full.size), 'at': [float(full[i]) for i in idx], 'single': one}
+            value = 1.0 + (np.arange(n) % 7) * 0.25
+            sp = R.Spectrum(wave, value, c['wu'], c['vu'])
+            total0 = float(sp.integrate(method='trapz'))
+            sp.to(*c['args'])
+            w, v = np.asarray(sp.wave, dtype=float), np.asarray(sp.value, dtype=float)
+            return {'n': int(w.size), 'nv': int(v.size), 'wu': sp.waveunit, 'vu': sp.valueunit, 'wave_at': [float(w[i]) for i in idx],
+                    'value_at': [float(v[i]) for i in idx], 'total0': total0, 'total': float(sp.integrate(method='trapz')),
+                    'finite': bool(np.all(np.isfinite(v)) and np.all(np.isfinite(w)))}
         if op == 'wien':
             m = float(METRES[c['wn']])
             lam0 = CODATA['h'] * CODATA['c'] / (CODATA['k'] * c['temp'] * XPEAK[c['vn']]) / m
@@ -680,7 +815,11 @@ def compare(c, impl, model):
         if len(mv) != len(impl['values']) or any(abs(a - b) > TOL * scale for a, b in zip(impl['values'], mv)):
             return f'sample in {c["wb"]} at {impl["points"]}: implementation {impl["values"]} model {mv}'
         return None
-    if op in ('factor', 'factor3', 'flux3', 'planck'):
+    if op == 'planck':
+        x = planck_x(c['wave'], c['temp'], c['wn'])
+        tol = cancel_tol(float(x), TOL) if x is not None else TOL
+        return None if close(impl['v'], model['v'], tol) else f'{op}: implementation {impl["v"]!r} model {float(model["v"])!r}'
+    if op in ('factor', 'factor3', 'flux3'):
         return None if close(impl['v'], model['v']) else f'{op}: implementation {impl["v"]!r} model {float(model["v"])!r}'
     fin = impl['steps'][-1] if op == 'chain' else impl
     if (fin['wu'], fin['vu']) != (model['wu'], model['vu']):
@@ -868,11 +1007,13 @@ def oracle(c, impl):
             return f'planck_* with units ({c["wn"]}, {c["vn"]}) raised {impl["err"]}'
         wm, t = impl['wm'], c['temp']
         m = float(METRES[a])
-        b_si = 2 * H * Cc ** 2 / (wm ** 5 * math.expm1(H * Cc / (wm * Kb * t)))
-        if not close(impl['si_rad'], b_si, 1e-11):
-            return f'planck_radiance({wm!r} m, {t} K) in SI is {impl["si_rad"]!r}, Planck\'s law gives {b_si!r}'
+        xx = H * Cc / (wm * Kb * t)
+        b_si = 2 * H * Cc ** 2 / (wm ** 5 * math.expm1(xx))
+        if not close(impl['si_rad'], b_si, cancel_tol(xx, 1e-11)):
+            return (f'planck_radiance({wm!r} m, {t} K) in SI is {impl["si_rad"]!r}, Planck\'s law gives {b_si!r} '
+                    f'(hc/(lambda k T) = {xx:.3g}, relative difference {abs(impl["si_rad"] - b_si) / b_si:.3g})')
         exp = truth_from_wlam_si(impl['si_rad'], g, wm, H, Cc) * m
-        if not close(impl['rad'], exp, 1e-11):
+        if not close(impl['rad'], exp, cancel_tol(xx, 1e-11)):
             return (f'planck_radiance({c["wave"]!r}, {t}, {c["wn"]!r}, {c["vn"]!r}) = {impl["rad"]!r} is not the SI value '
                     f'{impl["si_rad"]!r} W m^-2 sr^-1 m^-1 expressed per {a} in {g}: {exp!r}')
         if not close(impl['exi'], math.pi * impl['rad']):
@@ -906,6 +1047,80 @@ def oracle(c, impl):
         if not close(impl['flux'], exp):
             return (f'vegaflux({c["band"]!r}, {c["wn"]!r}, {c["vn"]!r}) = {impl["flux"]!r} is not the SI photon flux '
                     f'{impl["si_flux"]!r} expressed per {a} in {g}: {exp!r}')
+        return None
+    if op == 'band':
+        if 'err' in impl:
+            return f'Spectrum.integrate(start, end) before/after to(<wave unit>) raised {impl["err"]}'
+        a = wcanon(c['wu'])
+        w, v = c['wave'], c['value']
+        inside = [i for i, x in enumerate(w) if c['lo'] <= x <= c['hi']]
+        own = trapz([w[i] for i in inside], [v[i] for i in inside])
+        dmin = min((w[i + 1] - w[i]) / w[i] for i in range(len(w) - 1))
+        tol = max(1e-11, 8e-16 / dmin)
+        what = (f'{"a " + c["vu"] + " density" if c["vu"] else "a unitless spectrum"} on {len(w)} samples in {a} '
+                f'(smallest spacing {dmin * w[0]:.3g} {a}), band [{c["lo"]!r}, {c["hi"]!r}] {a} holding samples {inside[0]}..{inside[-1]}')
+        if not close(impl['own']['trapz'], own, tol):
+            return f'{what}: integrate(start, end, "trapz") = {impl["own"]["trapz"]!r}, the trapezoid sum over the samples inside the band is {own!r}'
+        for route in ('to', 'chained'):
+            for b in WSHORT:
+                k = truth_factor(a, b)
+                scale = 1.0 if c['vu'] else k
+                r = impl[route][b]
+                how = f'after to({b!r})' if route == 'to' else f'after to() through {WSHORT[:WSHORT.index(b) + 1]} in turn'
+                if not close(r['trapz'], own * scale, tol):
+                    return (f'{what}: {how} the same band [{c["lo"] * k!r}, {c["hi"] * k!r}] {b} integrates (trapz) to {r["trapz"]!r}, '
+                            f'expected {own * scale!r}' + ('' if c['vu'] else f' (= {own!r} * {k!r})'))
+                # Simpson's rule on an irregular grid has weights of both signs: its rounding error scales with
+                # max|value| * band width, not with the (possibly much smaller, cancelled) result
+                sim_abs = 1e3 * tol * max(abs(v[i]) for i in inside) * (w[inside[-1]] - w[inside[0]]) * scale
+                if abs(r['simps'] - impl['own']['simps'] * scale) > sim_abs and not close(r['simps'], impl['own']['simps'] * scale, 10 * tol):
+                    return (f'{what}: {how} the same band integrates (simps) to {r["simps"]!r}, before the conversion {impl["own"]["simps"]!r}'
+                            + ('' if c['vu'] else f' * {k!r}'))
+                if not close(r['all_trapz'], impl['own']['all_trapz'] * scale, tol):
+                    return f'{what}: {how} the whole spectrum integrates to {r["all_trapz"]!r}, before {impl["own"]["all_trapz"]!r}'
+        return None
+    if op == 'big':
+        if 'err' in impl:
+            return f'{c["kind"]} on {c["n"]} samples raised {impl["err"]}'
+        n = c['n']
+        idx = big_indices(n)
+        a = wcanon(c['wu'])
+        k0 = float(Fraction(1, 10 ** 9) / METRES[a])
+        wave = np.linspace(c['lo_nm'] * k0, c['hi_nm'] * k0, n)
+        if impl['n'] != n:
+            return f'{c["kind"]} on {n} samples returned {impl["n"]}'
+        if c['kind'] == 'planck':
+            for j, i in enumerate(idx[:60]):
+                if not close(impl['at'][j], impl['single'][j]):
+                    return (f'planck_radiance on an array of {n} wavelengths: element {i} is {impl["at"][j]!r}, the same wavelength '
+                            f'{float(wave[i])!r} {c["wu"]} passed alone gives {impl["single"][j]!r}')
+            m = float(METRES[a])
+            for j, i in enumerate(idx):
+                wm = float(wave[i]) * m
+                b_si = 2 * H * Cc ** 2 / (wm ** 5 * math.expm1(H * Cc / (wm * Kb * c['temp'])))
+                exp = truth_from_wlam_si(b_si, fcanon(c['vu']), wm, H, Cc) * m
+                if not close(impl['at'][j], exp, 1e-11):
+                    return f'planck_radiance on an array of {n} wavelengths: element {i} ({float(wave[i])!r} {c["wu"]}) is {impl["at"][j]!r}, Planck\'s law gives {exp!r}'
+            return None
+        value = 1.0 + (np.arange(n) % 7) * 0.25
+        wu, vu = a, c['vu']
+        w, v = wave[idx], value[idx]
+        for arg in c['args']:
+            if wcanon(arg):
+                kk = truth_factor(wu, wcanon(arg))
+                w, v, wu = w * kk, v / kk, wcanon(arg)
+            else:
+                m = float(METRES[wu])
+                v = np.array([truth_flux(x / m, vu, fcanon(arg), y * m, H, Cc) * m for x, y in zip(v, w)])
+                vu = fcanon(arg)
+        if impl['nv'] != n or (impl['wu'], impl['vu']) != (wu, vu) or not impl['finite']:
+            return f'Spectrum of {n} samples after to{tuple(c["args"])}: units {(impl["wu"], impl["vu"])}, {impl["nv"]} values, finite={impl["finite"]}'
+        for j, i in enumerate(idx):
+            if not close(impl['wave_at'][j], w[j]) or not close(impl['value_at'][j], v[j]):
+                return (f'Spectrum of {n} samples after to{tuple(c["args"])}: sample {i} is ({impl["wave_at"][j]!r}, {impl["value_at"][j]!r}), '
+                        f'expected ({float(w[j])!r}, {float(v[j])!r})')
+        if all(wcanon(x) for x in c['args']) and not close(impl['total'], impl['total0'], 1e-9):
+            return f'Spectrum of {n} samples: integral {impl["total0"]!r} became {impl["total"]!r} after to{tuple(c["args"])}'
         return None
     if op == 'wien':
         if 'err' in impl:
